@@ -147,13 +147,13 @@ def run(ctx, prop, fam, relevant, assumptions):
     q = ctx.quick
     cfg = "Daemon_mc_%s.cfg" % fam if q else "Daemon_mc_%s_thorough.cfg" % fam
     try:
-        mc = tlc_mc(ctx, "Daemon_mc", cfg, timeout=240 if q else 1200, coverage=not q)
+        mc = tlc_mc(ctx, "Daemon_mc", cfg, timeout=600 if q else 1500, coverage=not q)
     except MachineryError as e:
         # TLC's disk state queue was seen to hang once (StatePoolWriter, all workers blocked, no CPU): one more try
         if "timed out" not in str(e):
             raise
         ctx.notes.append("TLC %s timed out once, repeated" % cfg)
-        mc = tlc_mc(ctx, "Daemon_mc", cfg, timeout=240 if q else 1200, coverage=not q)
+        mc = tlc_mc(ctx, "Daemon_mc", cfg, timeout=600 if q else 1500, coverage=not q)
     nscen = {"c04": (48, 600), "c05": (24, 320), "c09": (48, 600)}[fam][0 if q else 1]
     nrand = {"c04": (48, 600), "c05": (24, 320), "c09": (48, 600)}[fam][0 if q else 1]
     scen = tc.simulate(ctx, "Daemon_mc", "Daemon_gen_%s.cfg" % fam, num=nscen, depth=150)
